@@ -30,7 +30,7 @@ ASSUMPTIONS = [
 ]
 TECHNIQUE = "reference-model runtime monitor (residual from oracle bases, exact-rank degeneracy) + intrinsic p/z and chi-square identities"
 DESIGN_REF = "DESIGN.md 4 C12"
-WEIGHTS = ["none", "frac", "zeros", "float"]
+WEIGHTS = ["none", "frac", "zeros", "float", "tiny"]
 INS = ["none", "sum", "diff"]
 REQUIRED_REACH = ["zscores", "pvals", "p_from_z", "degenerate_all_nan", "chi_square_2x2",
                   "residual_test_stats", "class:degenerate", "class:regular",
@@ -43,7 +43,7 @@ TECHNIQUE = TECHNIQUE + corpus.TECHNIQUE_SUFFIX
 
 
 def units(tier, seed):
-    n = 600 if tier == "quick" else 30000
+    n = 900 if tier == "quick" else 30000
     # W1 synthetic surveys, then W3: the fixture corpus under the intrinsic relations
     return [{"i": i, "seed": seed} for i in range(n)] + corpus.units(tier, seed) + w4.units(tier, seed)
 
@@ -58,8 +58,8 @@ def make_case(unit):
     template = TEMPLATES[i % len(TEMPLATES)]
     j = i // len(TEMPLATES)
     mode = MODES[j % len(MODES)]
-    wmode = WEIGHTS[(j // len(MODES)) % len(WEIGHTS)]
-    ins = INS[(j // (len(MODES) * len(WEIGHTS))) % len(INS)]
+    ins = INS[(j // len(MODES)) % len(INS)]
+    wmode = WEIGHTS[(j // (len(MODES) * len(INS))) % len(WEIGHTS)]
     N = g.pick([6, 10, 16, 25, 40, 60, 80])
     sizes = None
     nparts = len(template.split("|"))
@@ -137,8 +137,9 @@ def _degenerate(g, facets):
 
 
 def exact_rank(mat):
-    """Rank of a matrix of dyadic rationals by fraction Gaussian elimination."""
-    rows = [[Fraction(float(x)).limit_denominator(1 << 20) for x in row] for row in mat]
+    """Exact rank of a matrix of floats (each an exact rational) by fraction Gaussian
+    elimination."""
+    rows = [[Fraction(float(x)) for x in row] for row in mat]  # floats are exact rationals
     rank = 0
     ncols = len(rows[0]) if rows else 0
     for col in range(ncols):
